@@ -117,3 +117,9 @@ def run_unit(u):
 def O():
     """the symbolically loaded osyris package"""
     return loader.load("osyris")
+
+
+def M(name):
+    """a symbolically loaded osyris module by dotted name (osyris.plot is shadowed by the function plot)"""
+    loader.install()
+    return importlib.import_module(name)
